@@ -131,6 +131,8 @@ func checkC15(w *World, r *Report) {
 	r.Rule("GEN-DUPKEY", "Validate's duplicate key = the store key's fields", 4)
 	r.Rule("KV-AGREE", "import keys each record by its own fields", 4)
 	r.Rule("GEN-VALID-END", "genesis validation checks schedules against the end time they were agreed for", 1)
+	r.Rule("GEN-PARAMS", "export/import change a Params field only to normalise that same field's nil slice", 4)
+	r.Rule("GEN-VALID-POS", "stored-record validators demand positivity only of fields whose writers guarantee it", 4)
 
 	tm := NewTerms(w)
 	initM, exportM := w.genesisFns()
@@ -337,6 +339,8 @@ func checkC15(w *World, r *Report) {
 	}
 
 	checkGenValidEnd(w, r, tm)
+	checkGenParams(w, r, tm, initTree, exportTree)
+	checkGenValidPos(w, r, tm)
 
 	// ------------------------------------------------------------ GEN-DUPKEY
 	validate := w.methodOf(gs, "Validate")
@@ -461,6 +465,127 @@ func checkGenValidEnd(w *World, r *Report, tm *Terms) {
 	}
 	if n == 0 {
 		r.Fail("GEN-VALID-END", "anchor", typesPath, "a stored-record validator checks the vesting schedule", "no Validate method passes VestingSchedules to a schedule validator")
+	}
+}
+
+// checkGenParams: in genesis export/import the only stores to a field of Params are `F = empty` under `len(F) == 0`
+// of the very same field (nil-slice normalisation).
+func checkGenParams(w *World, r *Report, tm *Terms, trees ...map[*ssa.Function]bool) {
+	for _, tree := range trees {
+		for _, fn := range sortedFns(tree) {
+			if p := pkgOf(fn); p == nil || p.Path() != modulePath {
+				continue
+			}
+			fr := tm.Root(fn)
+			for _, b := range fn.Blocks {
+				for _, in := range b.Instrs {
+					st, ok := in.(*ssa.Store)
+					if !ok {
+						continue
+					}
+					fa, ok := st.Addr.(*ssa.FieldAddr)
+					if !ok || !isNamed(fa.X.Type(), typesPath, "Params") {
+						continue
+					}
+					field := structOf(fa.X.Type()).Field(fa.Field).Name()
+					construct := fmt.Sprintf("%s:Params.%s", fnName(fn), field)
+					// the guard: the innermost dominating If whose condition is len(X) == 0
+					guardField := ""
+					for d := b; d != nil; d = d.Idom() {
+						if d == b {
+							continue
+						}
+						iff, ok := d.Instrs[len(d.Instrs)-1].(*ssa.If)
+						if !ok || !(d.Succs[0] == b || d.Succs[0].Dominates(b)) {
+							continue
+						}
+						ct := tm.Of(fr, iff.Cond)
+						if ct.Op == "binop" && ct.Name == "==" && ct.Args[1].Key() == "const<0>" && ct.Args[0].Op == "builtin" && ct.Args[0].Name == "len" {
+							x := ct.Args[0].Args[0]
+							for x.Op == "deref" || x.Op == "new" {
+								x = x.Args[0]
+							}
+							if x.Op == "field" {
+								guardField = x.Name
+							}
+						}
+						break
+					}
+					vt := tm.OperandAt(fr, in, st.Val)
+					empty := vt.Op == "slice" || vt.Op == "zero" || (vt.Op == "const" && vt.Name == "nil")
+					switch {
+					case !empty:
+						r.Fail("GEN-PARAMS", construct, w.instrPos(in), "genesis code only normalises nil fee slices", "Params."+field+" is overwritten with "+vt.String())
+					case guardField != field:
+						r.Fail("GEN-PARAMS", construct, w.instrPos(in), "Params."+field+" is emptied only when that same field is empty",
+							fmt.Sprintf("the store is guarded by len(%s) == 0, a different field: a non-empty %s is silently dropped from the exported/imported state whenever %s is empty", guardField, field, guardField))
+					default:
+						r.Pass("GEN-PARAMS", construct, w.instrPos(in), "Params."+field+" is emptied only under len("+field+") == 0")
+					}
+				}
+			}
+		}
+	}
+}
+
+// positivity-guaranteed fields: every writer of the field stores a value that the message validation (VB-PRESENT, C18)
+// or the allow-list API's own validation has checked to be positive.
+var positiveByConstruction = map[string]string{
+	"Bid.Price": "MsgPlaceBid/MsgModifyBid.ValidateBasic", "Bid.Coin.Amount": "MsgPlaceBid/MsgModifyBid.ValidateBasic",
+	"AllowedBidder.MaxBidAmount": "AllowedBidder.Validate at every write (L3, C18)", "BaseAuction.StartPrice": "MsgCreate*.ValidateBasic",
+	"VestingSchedule.Weight": "ValidateVestingSchedules at creation (agreed term, never rewritten)",
+}
+
+// checkGenValidPos: a validator of stored records that demands positivity of a field the module itself may store as
+// zero (a floor share, zero proceeds, an exhausted remainder) rejects the export of a reachable state.
+func checkGenValidPos(w *World, r *Report, tm *Terms) {
+	gs := w.lookupNamed(typesPath, "GenesisState")
+	root := w.methodOf(gs, "Validate")
+	n := 0
+	for _, fn := range sortedFns(w.reachableFrom(root)) {
+		if p := pkgOf(fn); p == nil || p.Path() != typesPath || w.isGenerated(fn) {
+			continue
+		}
+		fr := tm.Root(fn)
+		for _, b := range fn.Blocks {
+			for _, in := range b.Instrs {
+				c, ok := in.(*ssa.Call)
+				if !ok || len(c.Call.Args) != 1 {
+					continue
+				}
+				k := callKey(&c.Call)
+				if !(strings.HasSuffix(k, ".IsPositive") || strings.HasSuffix(k, ".IsZero")) {
+					continue
+				}
+				t := tm.OperandAt(fr, in, c.Call.Args[0])
+				// field path of a record: field<..>(field<..>(param/elem))
+				var path []string
+				x := t
+				for x.Op == "field" {
+					path = append([]string{x.Name}, path...)
+					x = x.Args[0]
+				}
+				for x.Op == "deref" || x.Op == "new" {
+					x = x.Args[0]
+				}
+				if len(path) == 0 || x.V == nil {
+					continue
+				}
+				owner := namedOf(x.V.Type())
+				if owner == nil {
+					continue
+				}
+				n++
+				full := owner.Obj().Name() + "." + strings.Join(path, ".")
+				why, ok := positiveByConstruction[full]
+				r.Check(ok, "GEN-VALID-POS", fnName(fn)+":"+full, w.instrPos(in),
+					fmt.Sprintf("the validator's positivity demand on %s is met by every value the module stores (%s)", full, why),
+					full+" is not guaranteed positive by its writers (the module stores zero there for a rounded-down share, zero proceeds or an exhausted remainder): the exported genesis of such a reachable state fails the module's own validation")
+			}
+		}
+	}
+	if n == 0 {
+		r.Note("no positivity demand in the genesis validators")
 	}
 }
 
